@@ -468,7 +468,19 @@ impl SignatureCache {
 
     /// Verify signature with caching
     pub fn verify_cached(&mut self, record: &PeerDHTRecord) -> Result<()> {
-        let hash = record.content_hash();
+        // The cache key must cover everything the verdict depends on: the full
+        // signed content and the signature itself. Keying on (id, sequence,
+        // timestamp) alone lets a verdict leak to a different record.
+        let hash = match record.create_signable_message() {
+            Ok(message) => {
+                let mut hasher = blake3::Hasher::new();
+                hasher.update(&(message.len() as u64).to_be_bytes());
+                hasher.update(&message);
+                hasher.update(record.signature.as_bytes());
+                hasher.finalize()
+            }
+            Err(_) => return record.verify_signature(),
+        };
 
         // Check cache first
         if let Some(&result) = self.cache.get(&hash) {
